@@ -9,6 +9,11 @@ TARGET = f'{VERIF}/target'
 WORK = f'{VERIF}/work'
 GUARD = 'fastpasta_verif'
 JOBS = int(os.environ.get('VERIF_JOBS', '14'))
+# development only: VERIF_REPO=<scratch tree> runs the checks against a scratch copy (e.g. a worktree carrying a seeded change);
+# work directories, replays and evidence of such runs are kept apart from those of /repo
+SCRATCH = '' if REPO == '/repo' else '-' + hashlib.sha1(REPO.encode()).hexdigest()[:8]
+EVIDENCE = f'{VERIF}/evidence' if not SCRATCH else f'{WORK}/evidence{SCRATCH}'
+REPLAYS = f'{VERIF}/replays' if not SCRATCH else f'{WORK}/replays{SCRATCH}'
 
 
 class ToolError(Exception):
@@ -23,7 +28,7 @@ def seed():
 
 
 def workdir(prop, tier):
-    d = f'{WORK}/{prop}/{tier}'
+    d = f'{WORK}/{prop}{SCRATCH}/{tier}'
     shutil.rmtree(d, ignore_errors=True)
     os.makedirs(d, exist_ok=True)
     return d
@@ -50,17 +55,22 @@ def build_cli(hooks=False):
 
 def build_harness():
     env = dict(os.environ, **_env_off)
-    # the harness always builds against the tree under test
-    ct = f'{VERIF}/harness/Cargo.toml'
-    txt = open(ct).read()
-    new = re.sub(r'fastpasta = \{ path = "[^"]*" \}', f'fastpasta = {{ path = "{REPO}/fastpasta" }}', txt)
-    new = re.sub(r'alice_protocol_reader = \{ path = "[^"]*" \}', f'alice_protocol_reader = {{ path = "{REPO}/alice_protocol_reader" }}', new)
-    if new != txt:
-        open(ct, 'w').write(new)
-    r = subprocess.run(['cargo', 'build', '--offline'], cwd=f'{VERIF}/harness', env=env, capture_output=True, text=True)
+    hdir = f'{VERIF}/harness'
+    if REPO != '/repo':
+        # scratch trees (development only: seeded changes in a worktree) get their own copy of the harness crate, pointed at that tree
+        hdir = f'{WORK}/harness-' + hashlib.sha1(REPO.encode()).hexdigest()[:8]
+        os.makedirs(f'{hdir}/.cargo', exist_ok=True)
+        for f in ('Cargo.lock', '.cargo/config.toml'):
+            shutil.copyfile(f'{VERIF}/harness/{f}', f'{hdir}/{f}')
+        shutil.rmtree(f'{hdir}/src', ignore_errors=True)
+        shutil.copytree(f'{VERIF}/harness/src', f'{hdir}/src')
+        txt = open(f'{VERIF}/harness/Cargo.toml').read().replace('/repo/', REPO.rstrip('/') + '/')
+        if not os.path.exists(f'{hdir}/Cargo.toml') or open(f'{hdir}/Cargo.toml').read() != txt:
+            open(f'{hdir}/Cargo.toml', 'w').write(txt)
+    r = subprocess.run(['cargo', 'build', '--offline'], cwd=hdir, env=env, capture_output=True, text=True)
     if r.returncode != 0:
         raise ToolError('cargo build (harness) failed:\n' + r.stderr[-3000:])
-    return f'{VERIF}/harness/target/debug/fpverif'
+    return f'{hdir}/target/debug/fpverif'
 
 
 # ------------------------------------------------------------------ TLC
@@ -171,9 +181,9 @@ class Run:
                     k['_printed'] = True
                 self.known += 1
                 return False
-        os.makedirs(f'{VERIF}/replays/{self.prop}', exist_ok=True)
+        os.makedirs(f'{REPLAYS}/{self.prop}', exist_ok=True)
         h = hashlib.sha1(json.dumps(replay, sort_keys=True, default=str).encode()).hexdigest()[:10]
-        path = f'{VERIF}/replays/{self.prop}/{h}.json'
+        path = f'{REPLAYS}/{self.prop}/{h}.json'
         with open(path, 'w') as f:
             json.dump({'property': self.prop, 'key': key, 'what': what, 'replay': replay}, f, indent=1, default=str)
         self.violations += 1
@@ -186,8 +196,8 @@ class Run:
         ev = {'property_id': self.prop, 'tier': self.tier, 'seed': seed(), 'level': self.level, 'coverage': self.cov,
               'assumptions': self.assumptions, 'wall_s': round(time.time() - self.t0, 2), 'violations': self.violations,
               'known_findings_matched': self.known}
-        os.makedirs(f'{VERIF}/evidence', exist_ok=True)
-        with open(f'{VERIF}/evidence/{self.prop}.json', 'w') as f:
+        os.makedirs(EVIDENCE, exist_ok=True)
+        with open(f'{EVIDENCE}/{self.prop}.json', 'w') as f:
             json.dump(ev, f, indent=1, default=str)
         print(f'{self.prop} {self.tier}: states={self.cov["states"]} cases={self.cov["evaluations"]} '
               f'traces={self.cov["traces_validated_against_impl"]} violations={self.violations} known={self.known} wall={ev["wall_s"]}s')
